@@ -115,8 +115,17 @@ class Workspace:
                 return exe
             t0 = time.time()
             env = dict(os.environ, CARGO_NET_OFFLINE='true')
-            cmd = ['cargo', 'build', '--offline', '--manifest-path', os.path.join(VERIF, 'replay/Cargo.toml'),
-                   '--target-dir', tdir]
+            manifest = os.path.join(VERIF, 'replay/Cargo.toml')
+            if REPO != '/repo':
+                # a tree other than /repo (VERIF_REPO: development and seeded-change runs on scratch copies): the replay crate
+                # is copied next to the cache with its path dependency pointing at that tree
+                cdir = os.path.join(s.dir, 'replay-crate')
+                shutil.rmtree(cdir, ignore_errors=True)
+                shutil.copytree(os.path.join(VERIF, 'replay'), cdir, ignore=shutil.ignore_patterns('target'))
+                mf = open(os.path.join(cdir, 'Cargo.toml')).read().replace('"/repo/marwood"', '"%s/marwood"' % REPO)
+                open(os.path.join(cdir, 'Cargo.toml'), 'w').write(mf)
+                manifest = os.path.join(cdir, 'Cargo.toml')
+            cmd = ['cargo', 'build', '--offline', '--manifest-path', manifest, '--target-dir', tdir]
             feats = hook_features()
             if feats: cmd += ['--features', feats]
             if profile != 'dev': cmd.append('--release')
